@@ -70,6 +70,20 @@ impl Monitor for C06 {
                 }
             }
         }
+        // operand pairs whose result lands within a few hundred of a range boundary
+        let nb = ctx.tier.pick(40_000u64, 800_000);
+        for i in 0..nb {
+            if ctx.mine() {
+                let mut rng = ctx.rng("boundary", i);
+                let (a, op, b) = boundary_seeking(&mut rng);
+                let (s, ph) = match rng.below(4) {
+                    0 => (format!("@{}{}", op, i64_expr(b)), a),
+                    1 => (format!("{}{}@", i64_expr(a), op), b),
+                    _ => (format!("{}{}{}", i64_expr(a), op, i64_expr(b)), 0),
+                };
+                ctx.check(&Case::new(ev, "boundary", &s, Val::I(ph)), &|c, st| self.judge(c, st));
+            }
+        }
         // random trees
         let poolc = pool.clone();
         let leaf = move |rng: &mut Rng| -> Ast {
@@ -119,7 +133,7 @@ impl Monitor for C06 {
         to_verdict("C06", case.ev, &shape_of(&p.ast), rv, false)
     }
     fn rule(&self) -> &'static str {
-        "depth-1: every operator (+ - * / % ^ & | << >> mod pow) over every ordered pair of the 25-value boundary pool (0, +-1, 2^31, 2^32, 3037000499/500, 2^62, i64::MAX, i64::MIN, ...) with the left operand as a literal and through @, unary minus/abs/sgn/!/superscripts/exp2; depth-2: every operator pair in both bracketings over a 12-value sub-pool; random trees of depth<=6; oracle = exact arithmetic in i128 with range checks (value, must-Err, value-or-Err, unspecified); every outcome (also in unspecified regions) is additionally folded into per-block digests that must be identical between the overflow-checked and the release build; non-trivial = the reference gives a verdict; distinct = distinct (expression, placeholder)"
+        "depth-1: every operator (+ - * / % ^ & | << >> mod pow) over every ordered pair of the 25-value boundary pool (0, +-1, 2^31, 2^32, 3037000499/500, 2^62, i64::MAX, i64::MIN, ...) with the left operand as a literal and through @, unary minus/abs/sgn/!/superscripts/exp2; depth-2: every operator pair in both bracketings over a 12-value sub-pool; + - * on operand pairs constructed so that the exact result lands within 1500 of +-2^63, +-2^53, 2^31, 2^32, +-2^62 or 0 (operands of every magnitude, as literals and through @); random trees of depth<=6; oracle = exact arithmetic in i128 with range checks (value, must-Err, value-or-Err, unspecified); every outcome (also in unspecified regions) is additionally folded into per-block digests that must be identical between the overflow-checked and the release build; non-trivial = the reference gives a verdict; distinct = distinct (expression, placeholder)"
     }
     fn assumptions(&self) -> Vec<&'static str> {
         vec!["overflowing << and MIN % -1 accept the stated value or Err; exponents outside 0..2^32-1 and n! for n<0 are unspecified for the value but still compared across build configurations"]
